@@ -7,7 +7,7 @@ with Ssv/Model/Heights.lean.
 Repair 1 (ibft/storage/store.go `saveInstance`): a stored record (highest / historical) is overwritten only by a record
   of a higher height or, at the same height, by a certificate with more signers (`replaces`).
 Repair 2 (controller/decided.go `UponDecided`): an instance that `InstanceForHeight` reloaded from storage is put into
-  `StoredInstances` (`addNewInstance`), and a decided message for a FUTURE height is always saved.
+  `StoredInstances` (`addNewInstance`) and is always handed to `SaveInstance`.
 -/
 import Ssv.Model.Heights
 
@@ -52,7 +52,7 @@ def decidedBranchR (c : Ctrl) (st : Store) (h : Nat) (m : Msg) : List Inst × Bo
        else insts0, true)
     else if longest i.commits m.round m.root < m.signers.length then
       (if inMem then replaceInst { i with commits := i.commits ++ [m] } insts0 else insts0, true)
-    else (insts0, decide (c.height < h))
+    else (insts0, !inMem0)
 
 def uponDecidedR (c : Ctrl) (st : Store) (h : Nat) (m : Msg) : Ctrl × Store × DOut :=
   let br := decidedBranchR c st h m
